@@ -455,6 +455,10 @@ class InstructionNodeCreator:
             and not prev_text_node.text[-1].isspace()
             and command not in PAC_TAB_OFFSET_COMMANDS
             and not next_is_punctuation
+            # a mid-row code at the beginning of a new row (a PAC came since
+            # the previous text) has nothing to do with the previous row
+            and not self._position_tracer.is_repositioning_required()
+            and not self._position_tracer.is_linebreak_required()
         ):
             if self.last_style == "italics off":
                 # need to open italics tag, add a space
